@@ -258,3 +258,14 @@ if __name__ == '__main__' and len(sys.argv) > 1 and sys.argv[1] == 'desc128':
 if __name__ == '__main__' and len(sys.argv) > 1 and sys.argv[1] == 'hurd':
     # creator OS Hurd: the osd2 part of the inode has another meaning (h_i_frag, h_i_fsize, h_i_mode_high, h_i_author) and e2fsck has Hurd-only checks
     build('hurd', ['-t', 'ext2', '-o', 'hurd', '-O', '^resize_inode', '-N', '256'] + ['-g', '256'], 1536, post=[D])
+
+if __name__ == '__main__' and len(sys.argv) > 1 and sys.argv[1] == 'links65000':
+    # a directory with exactly 64998 sub-directories (i_links_count 65000 = EXT2_LINK_MAX, the last value before the dir_nlink overflow rule); inline_data keeps the
+    # empty sub-directories inside their inodes.  Built with: mke2fs -t ext4 -O ^has_journal,inline_data -b 1024 -N 66000 img 40M; debugfs: mkdir /big; 64998 x mkdir /big/dN
+    # (takes about a minute: every insert scans the linear directory).  Not part of fsweep.CORPUS: only C05 part j uses it.
+    sc = scratch(); img = os.path.join(sc, 'links65000.img')
+    rc, out = run([tool('mke2fs'), '-q', '-F', '-t', 'ext4', '-O', '^has_journal,inline_data', '-b', '1024', '-N', '66000', img, '40M'], env=tool_env()); assert rc == 0, out
+    sp = os.path.join(sc, 'big.dbg'); open(sp, 'w').write('mkdir /big\ncd /big\n' + ''.join('mkdir d%d\n' % i for i in range(64998)))
+    rc, out = run([tool('debugfs'), '-w', '-f', sp, img], env=tool_env(), timeout=900); assert rc == 0
+    rc, out = run([tool('e2fsck'), '-fn', img], env=tool_env()); assert rc == 0, out
+    open(os.path.join(VERIF, 'corpus', 'links65000.img.xz'), 'wb').write(lzma.compress(open(img, 'rb').read(), preset=6))
